@@ -99,6 +99,9 @@ def gen_step(rng, L, ops=OPS, max_len=20000):
         p = rng.choice([None, rpos(rng, L), [rpos(rng, L, False) for _ in range(3)], [rpos(rng, L) for _ in range(3)],
                         enc_range(range(0, L, 2)), enc_range(range(1, L, 3)), enc_range(range(L - 1, -1, -3)),
                         enc_range(range(0, L + 5, 3)), enc_range(range(-L, 0, 2)) if L else enc_range(range(0)),
+                        # ranges that leave the object at the negative end: wholly below -L, starting below it, stepping down past it
+                        enc_range(range(-L - 4, -L + L // 2)), enc_range(range(-L - 4, 0, 3)), enc_range(range(-L - 8, -L - 1)),
+                        enc_range(range(-1, -L - 3, -2)), enc_range(range(-L, 0)) if L else enc_range(range(0)),
                         enc_range(range(0, L)), ['tuple', rpos(rng, L, False), rpos(rng, L, False)]])
         if isinstance(p, list) and p and p[0] == 'tuple':
             p = p[1:]
